@@ -514,6 +514,8 @@ class kFlowDecomp(pathmodel.AbstractPathModelDAG):
                 "weights": self.path_weights_sol,
             }
 
+        return self._remove_empty_paths(self._solution) if remove_empty_paths else self._solution
+
     def is_valid_solution(self, tolerance=0.001):
         """
         Checks if the solution is valid by comparing the flow from paths with the flow attribute in the graph edges.
